@@ -353,17 +353,27 @@ def step_correspondence(prop, tier, seed):
     # still "ok" must not hide them), then smallest first
     mism.sort(key=lambda c: (c["oracle"] == "ok", len(c["input"])))
     seen_sigs = set()
+    known_res = [re.compile(k["sig_regex"]) for k in load_known()
+                 if k.get("status") == "open" and k.get("property") == prop["id"]]
+    n_known = n_other = 0
     for c in mism:
         if c["sig"] in seen_sigs and len(seen_sigs) > 0:
             continue
         seen_sigs.add(c["sig"])
+        # cases of an open known finding must not use up the report quota of 8 signatures
+        if any(r.search(c["sig"]) for r in known_res):
+            n_known += 1
+            if n_known > 3:
+                continue
+        else:
+            n_other += 1
         if c["oracle"] != "ok":
             fails.append(Failure("oracle", f"property oracle on {c['sig']}", c["oracle"], case=c, oracle=c["oracle"]))
         else:
             fails.append(Failure("correspondence", f"model/implementation disagreement on {c['sig']}",
                                  f"impl={c['impl'][:400]} model={str(c['model'])[:400]}", case=c,
                                  oracle=prop.get("disagreement_is_violation")))
-        if len(seen_sigs) >= 8:
+        if n_other >= 8:
             break
     # in-kernel cross-check of a sample
     sample = [c for c in allcases if c.get("model") is not None][: (200 if tier == "quick" else 1000)]
@@ -476,7 +486,10 @@ def main():
         f, stats = step_correspondence(prop, tier, seed)
         failures += f
     corr_obl = len(prop["jobs"]) + 1  # batches + kernel cross-check
-    corr_ok = corr_obl - len({f.what for f in failures if f.kind in ("correspondence", "oracle", "kernel_crosscheck")})
+    # failures inside a listed known-finding class do not count against the batch: its obligation is
+    # "agrees with the model and satisfies the oracle outside the known classes"
+    corr_ok = corr_obl - len({f.what for f in failures
+                              if f.kind in ("correspondence", "oracle", "kernel_crosscheck") and not match_known(pid, f)})
     obligations += corr_obl + 2  # + translator + lint
     discharged += max(0, corr_ok) + (0 if any(f.kind == "translator" for f in failures) else 1) + \
         (0 if any(f.kind == "lint" for f in failures) else 1)
